@@ -12,7 +12,7 @@ import (
 // C05: a template whose contextual analysis fails never produces output, and the failure is
 // permanent. Bounded call histories over a hand-built set
 //
-//	main: P ++ T0 {{.M}} T1      c: x {{template "main" .}}      ok: hi
+//	main: P ++ T0 {{.M}} T1      c: x {{template "main" .}} T2      ok: hi
 //
 // with symbolic ASCII texts. Two calls are chosen symbolically among Execute,
 // ExecuteTemplate, ExecuteToHTML, ExecuteTemplateToHTML on main, ExecuteTemplate on its caller
@@ -30,26 +30,26 @@ func (d vExecData) M() (string, error) {
 	return "m", nil
 }
 
-func vHarness_C05_sticky() {
-	p := c01ShapePrefixes[vParam("prefix")]
-	s0 := vNondetString("t0", vParam("n0"))
-	s1 := vNondetString("t1", vParam("n1"))
-	vASCII(s0)
-	vASCII(s1)
+type c05Set struct {
+	ns *nameSpace
+	tm *Template
+}
+
+func c05Build(p, s0, s1, s2 string) *c05Set {
 	field := &parse.PipeNode{NodeType: parse.NodePipe, Cmds: []*parse.CommandNode{{NodeType: parse.NodeCommand, Args: []parse.Node{&parse.FieldNode{NodeType: parse.NodeField, Ident: []string{"M"}}}}}}
 	action := &parse.ActionNode{NodeType: parse.NodeAction, Pipe: field}
 	mainTree := &parse.Tree{Name: "main", Root: &parse.ListNode{NodeType: parse.NodeList, Nodes: []parse.Node{c01TextNode(p + s0), action, c01TextNode(s1)}}}
 	cTree := &parse.Tree{Name: "c", Root: &parse.ListNode{NodeType: parse.NodeList, Nodes: []parse.Node{c01TextNode("x"),
-		&parse.TemplateNode{NodeType: parse.NodeTemplate, Name: "main", Pipe: c01DotPipe()}}}}
+		&parse.TemplateNode{NodeType: parse.NodeTemplate, Name: "main", Pipe: c01DotPipe()}, c01TextNode(s2)}}}
 	okTree := &parse.Tree{Name: "ok", Root: &parse.ListNode{NodeType: parse.NodeList, Nodes: []parse.Node{c01TextNode("hi")}}}
 	tt := template.New("main")
 	if _, err := tt.AddParseTree("main", mainTree); err != nil {
-		return
+		return nil
 	}
 	tc, err1 := tt.AddParseTree("c", cTree)
 	tok, err2 := tt.AddParseTree("ok", okTree)
 	if err1 != nil || err2 != nil {
-		return
+		return nil
 	}
 	ns := &nameSpace{set: map[string]*Template{}}
 	ns.esc = makeEscaper(ns)
@@ -57,6 +57,29 @@ func vHarness_C05_sticky() {
 	ns.set["main"] = tm
 	ns.set["c"] = &Template{text: tc, Tree: cTree, nameSpace: ns}
 	ns.set["ok"] = &Template{text: tok, Tree: okTree, nameSpace: ns}
+	return &c05Set{ns: ns, tm: tm}
+}
+
+func vHarness_C05_sticky() {
+	p := c01ShapePrefixes[vParam("prefix")]
+	s0 := vNondetString("t0", vParam("n0"))
+	s1 := vNondetString("t1", vParam("n1"))
+	s2 := vNondetString("t2", vParam("n2"))
+	vASCII(s0)
+	vASCII(s1)
+	vASCII(s2)
+	// reference: whether main, and whether its caller c, can be contextualized at all - decided on
+	// fresh copies of the set, each analysed first and on its own
+	ref := c05Build(p, s0, s1, s2)
+	refC := c05Build(p, s0, s1, s2)
+	set := c05Build(p, s0, s1, s2)
+	if ref == nil || refC == nil || set == nil {
+		return
+	}
+	_, refErr := ref.tm.lookupAndEscapeTemplate("main")
+	_, refCErr := refC.tm.lookupAndEscapeTemplate("c")
+	mainBad, cBad := refErr != nil, refCErr != nil
+	ns, tm := set.ns, set.tm
 	data := vExecData{Fail: vNondetBool("fail")}
 	sticky := false
 	for k := 0; k < 2; k++ {
@@ -92,8 +115,14 @@ func vHarness_C05_sticky() {
 			vReach("tohtml-error")
 			vAssert(h.String() == "", "ExecuteToHTML / ExecuteTemplateToHTML return a non-zero HTML together with an error")
 		}
-		if sticky && target != 2 {
-			vAssert(err != nil, "a template whose analysis failed (or a template that calls it) is executed by a later call")
+		if (target == 0 && mainBad) || (target == 1 && cBad) {
+			// whatever was executed before: a template that cannot be contextualized fails and writes nothing
+			vReach("uncontextualizable")
+			vAssert(err != nil, "a template whose contextual analysis fails (on a fresh copy of the set) is executed")
+			vAssert(buf.Len() == 0 && h.String() == "", "a call on a template whose contextual analysis fails wrote output")
+		}
+		if sticky && target == 0 {
+			vAssert(err != nil, "a template whose analysis failed is executed by a later call")
 			vAssert(buf.Len() == 0 && h.String() == "", "a call on a template whose analysis failed wrote output")
 		}
 		if target == 0 && tm.escapeErr != nil && tm.escapeErr != errEscapeOK {
@@ -105,6 +134,9 @@ func vHarness_C05_sticky() {
 		}
 		if target == 0 && err == nil {
 			vReach("executed")
+		}
+		if target == 1 && err == nil {
+			vReach("caller-executed")
 		}
 		vAssert(ns.escaped, "the set is not frozen after an execution attempt")
 	}
